@@ -19,6 +19,8 @@ from pathlib import Path
 
 import numpy as np
 
+from .core import MachineryError
+
 KS = dict(times='spike_times.npy', st='spike_templates.npy', sc='spike_clusters.npy',
           amps='amplitudes.npy', chmap='channel_map.npy', pos='channel_positions.npy',
           shanks='channel_shanks.npy', probes='channel_probe.npy', T='templates.npy',
@@ -128,6 +130,10 @@ def random_dense(rng, ns=20, nt=4, nc=6, nsw=4, whitening='none', shanks=False, 
                  amps=True, rate=1024, tmax=3, empty_templates=(), curated=None, geometry='grid',
                  features=False, raw=False, nloc=None):
     """A dense-template dataset with small-integer contents."""
+    # the loader squeezes singleton dimensions: a templates file with ONE template, sample or channel
+    # is ambiguous on disk ((1, s, c) squeezes to (s, c)); such degenerate datasets are not generated
+    if min(nt, nsw, nc) < 2:
+        raise MachineryError('degenerate dataset requested: nt=%d nsw=%d nc=%d' % (nt, nsw, nc))
     ds = dict(rate=rate)
     gaps = rng.randint(0, 4, size=ns)
     ds['samples'] = np.cumsum(gaps) + 3
